@@ -34,7 +34,7 @@ TORN = '<torn cache file>'
 
 def gen_content(rng: random.Random) -> dict:
     n = rng.randint(2, 5)
-    trows = [[i + 1, rng.randint(0, 9), rng.choice(['x', 'y', 'z'])] for i in range(n)]
+    trows = [[i + 1, rng.randint(-2, 9), rng.choice(['x', 'y', 'z'])] for i in range(n)]
     urows = [[rng.randint(1, n + 1), rng.randint(10, 99)] for _ in range(rng.randint(1, 3))]
     return {'T': trows, 'U': urows}
 
